@@ -98,6 +98,24 @@ def impl_functions(_: dict) -> dict:
                 problems.append({"what": "a wrapped callable received the call in another form than the caller wrote it (positional / keyword / defaults)",
                                  "params": params, "call": call, "undecorated": f"{len(a1)} positional, keywords {list(k1)}",
                                  "decorated": f"{len(a2)} positional, keywords {list(k2)}"})
+    # ... and what is decorated is still checked: annotations and signature are found through functools.wraps
+    n += 1
+    ns = dict(base)
+    ns["CALLS"] = []
+    ns["functools"] = functools
+    exec(compile("def body(x: A, y: B) -> A:\n    return X\n"
+                 "def spy(fn):\n    @functools.wraps(fn)\n    def w(*a, **k):\n        CALLS.append(1)\n        return fn(*a, **k)\n    return w\n"
+                 "checked = dltype.dltyped()(spy(body))\n", "<c16>", "exec", dont_inherit=True), ns)  # noqa: S102
+    for label, args in (("first argument", (np.zeros((2,), dtype=np.float32), Y)), ("second argument", (X, np.zeros((4,), dtype=np.int32)))):
+        ns["CALLS"].clear()
+        try:
+            ns["checked"](*args)
+            problems.append({"what": f"a violating {label} passed to a decorated functools.wraps wrapper was accepted"})
+        except dltype.DLTypeError:
+            if ns["CALLS"]:
+                problems.append({"what": "the wrapped callable ran before its violating argument was refused"})
+        except BaseException as e:  # noqa: BLE001
+            problems.append({"what": f"violating {label} through a wrapper: {type(e).__name__} instead of a DLTypeError"})
     # a default that violates its annotation is rejected like a passed value, before the body
     n += 1
     ns = dict(base)
@@ -282,6 +300,19 @@ def impl_classes(_: dict) -> dict:
                 chk(True, "")
             except BaseException as e:  # noqa: BLE001
                 chk(False, f"{K.__name__}: violating {label}: {type(e).__name__} instead of a DLTypeError")
+    # a field(init=False) filled in by __post_init__ is a field like the others
+    try:
+        inst = L.WithDerivedField(X)
+        chk(inst.y.shape == (3,), "dataclass with a derived field: conforming construction gives another value")
+    except BaseException as e:  # noqa: BLE001
+        chk(False, f"dataclass with a derived field: conforming construction raised {type(e).__name__}: {e}")
+    try:
+        L.WithDerivedField(X, 2)
+        chk(False, "dataclass with a derived field: a violating value of the field(init=False) was accepted")
+    except dltype.DLTypeError:
+        chk(True, "")
+    except BaseException as e:  # noqa: BLE001
+        chk(False, f"dataclass with a derived field: {type(e).__name__} instead of a DLTypeError")
     return {"n": n, "problems": problems}
 
 
